@@ -1027,6 +1027,16 @@ func (x *Exec) specCall(env *SpecEnv, c ECall) SpecVal {
 	case "seqof":
 		v := x.spec(env, c.Args[0])
 		return x.sliceToSeq(env.st, v)
+	case "waitkind":
+		// waitkind("take"): is this path verified for / called by a waiter of that kind?
+		cfg := env.cfg
+		if cfg == nil {
+			cfg = x.curCfg
+		}
+		if x.kindOf(cfg) == c.Args[0].(EStr).V {
+			return SpecVal{T: True}
+		}
+		return SpecVal{T: False}
 	}
 	// pure Go function under contract, used as a spec function
 	if pc, pfn := x.findPure(env, c.Fn); pc != nil {
@@ -1210,6 +1220,18 @@ func (x *Exec) applyContract(cfg *Config, f *Frame, fn *ssa.Function, c *FuncCon
 		unsupported("call from %s-mode function into %s-mode contract %s", x.mode, c.Mode, c.Key)
 	}
 	env := x.calleeEnv(cfg, fn, c, args, binds)
+	if ks := strings.Fields(c.Options["waitkinds"]); len(ks) > 0 {
+		ok := false
+		for _, k := range ks {
+			if k == x.kindOf(cfg) {
+				ok = true
+			}
+		}
+		if !ok {
+			unsupported("call of multi-kind waiter %s from a function of kind %q", c.Key, x.kindOf(cfg))
+		}
+	}
+	x.checkCallbackArgs(cfg, env, fn, c, args, pos)
 	for _, r := range c.Requires {
 		t := x.specBool(env, r.E)
 		x.oblige(cfg, "call-pre", c.Key+": "+x.clauseLabel(r), t, nil, pos)
